@@ -2,7 +2,7 @@
 REG = dict(
     engine='E2-bfs',
     technique='explicit-state breadth-first search over request histories of the real JSON-session handler, canonical-state deduplication, differential cross-check of merged states',
-    text="Alphabet of 27 requests (14 evaluations incl. definitions, a redefinition with another arity, failing calls, a failing test; 9 REPL commands :skip :replace :abort :resume :forget :forget_local :test :type :locals; three eval_up_to requests incl. the cursor on a parameter the saved call did not have; one malformed line). BFS over all histories of depth <=3 (quick) / <=5 (thorough), deduplicated by canon(Env); every transition is one fresh session executed by handle_request_in_worker. Oracle per request: exactly one non-printed response, no panic escapes, and one more request (`1 + 2`) is answered by exactly one response. Violations are confirmed on `garden reftest-json-session` and on a real `garden json` process (Content-Length framing, exit status 101 / missing responses).",
+    text="Alphabet of 29 requests (16 evaluations incl. definitions, a redefinition with another arity, assignments to a function and to a built-in name, failing calls, a failing test; 9 REPL commands :skip :replace :abort :resume :forget :forget_local :test :type :locals; three eval_up_to requests incl. the cursor on a parameter the saved call did not have; one malformed line). BFS over all histories of depth <=3 (quick) / <=5 (thorough), deduplicated by canon(Env); every transition is one fresh session executed by handle_request_in_worker. Oracle per request: exactly one non-printed response, no panic escapes, and one more request (`1 + 2`) is answered by exactly one response. Violations are confirmed on `garden reftest-json-session` and on a real `garden json` process (Content-Length framing, exit status 101 / missing responses).",
     note=':quit (exits by design), :uptime (wall clock), :load (filesystem) and the `interrupt` request (C08) are outside the alphabet. State identity is canon(Env) (frames, pending expressions, value stacks, bindings, user namespace entries, tests); fields dropped by it are validated by replaying a second history for every merged state.',
     design_ref='DESIGN.md §6 C09',
 )
@@ -23,7 +23,9 @@ EVALS = ['1 + 2', 'let a = 1', 'a', 'a = 2', 'fun f(x) { x + 1 }', 'f(1)', 'fun 
          # the last expression of a request is not run at all by the session)
          'for i in [1, 2] { throw("l") } 0',
          # a definition and a call in one request, and a redefinition with another arity (saved call arguments then belong to the old signature)
-         'fun f(x) { x + 1 }\nf(1)', 'fun f(x, y) { x + y }']
+         'fun f(x) { x + 1 }\nf(1)', 'fun f(x, y) { x + y }',
+         # assignment to a name that is a function (or a built-in) rather than a variable
+         'f = 2', 'print = 2']
 COMMANDS = [':skip', ':replace 5', ':abort', ':resume', ':forget f', ':forget_local a', ':test t', ':type 1 + 2', ':locals']
 # eval_up_to inside a function with a parameter: its answer depends on env.prev_call_args (part of canon(Env) as PCA[...])
 EVAL_UP_TO = json.dumps({"method": "eval_up_to", "src": "fun f(x) { x + 1 }", "offset": 13})
